@@ -44,6 +44,7 @@ var importMap = map[string][2]string{
 	"math/rand":   {"vrand", "rand"},
 	"sync":        {"vsync", "sync"},
 	"sync/atomic": {"vatomic", "atomic"},
+	"time":        {"vtime", "time"},
 }
 
 // shared fields whose accesses are reported to the happens-before monitor
@@ -121,6 +122,7 @@ func main() {
 			fatal(err)
 		}
 		curPkgVars = collectPkgVars(dir, ents)
+		collectMapDecls(dir, ents)
 		for _, e := range ents {
 			n := e.Name()
 			if e.IsDir() || !strings.HasSuffix(n, ".go") || strings.HasSuffix(n, "_test.go") {
@@ -173,7 +175,8 @@ func main() {
 		keys = append(keys, k)
 	}
 	sort.Strings(keys)
-	fmt.Printf("instrument: %d overlay entries written to %s\n", len(keys), filepath.Join(*out, "overlay.json"))
+	_ = os.WriteFile(filepath.Join(*out, "map_range_sites"), []byte(strconv.Itoa(MapRangeSites)), 0o644)
+	fmt.Printf("instrument: %d overlay entries written to %s (%d range-over-map statements rewritten)\n", len(keys), filepath.Join(*out, "overlay.json"), MapRangeSites)
 }
 
 // curPkgVars: names of the package-level variables of the package being rewritten. Every
@@ -223,6 +226,7 @@ type rewriter struct {
 	file       *ast.File
 	pkg        string
 	needSched  bool
+	needMap    bool
 	changed    bool
 	tmpCounter int
 }
@@ -251,6 +255,7 @@ func rewriteFile(src, dst, pkg string) (bool, error) {
 		}
 	}
 	r.rewriteImports()
+	r.rewriteMapRanges()
 	if pkg == "neat/genetics" {
 		r.rewriteConcurrency()
 		r.addPopulationPoints()
@@ -259,6 +264,9 @@ func rewriteFile(src, dst, pkg string) (bool, error) {
 	r.addAccessEvents()
 	if r.needSched {
 		r.addImport("vsched", modPath+"/neat/vsched")
+	}
+	if r.needMap {
+		r.addImport("vmap", modPath+"/neat/vmap")
 	}
 	if !r.changed {
 		return false, nil
@@ -312,6 +320,265 @@ func (r *rewriter) addImport(name, path string) {
 
 func sel(x, s string) *ast.SelectorExpr {
 	return &ast.SelectorExpr{X: ast.NewIdent(x), Sel: ast.NewIdent(s)}
+}
+
+// ---- iteration over maps -------------------------------------------------------
+
+// The order in which a range statement visits a map is chosen by the Go runtime per loop and cannot be
+// intercepted at run time. The instrumenter therefore rewrites every range over an expression that is
+// SYNTACTICALLY known to be a map
+//
+//	for k, v := range m { body }   ->   for _, __vkN := range vmap.Keys(m) { k, v := __vkN, m[__vkN]; body }
+//
+// (an entry deleted during the loop is skipped, as the language demands), so that the order becomes an
+// answer of the harness (ascending / descending / rotated keys). "Syntactically known": the range
+// expression is a parameter, local or package variable declared with a map type (or a named map type
+// of the package), a local defined from make(map..), a map literal or a call of a package function
+// whose result at that position is a map, or a selector of a struct field that is declared with a map
+// type in this package (and with no other type under the same name). A map reached any other way keeps
+// the runtime's order (C17 still repeats every execution).
+var (
+	mapTypeNames map[string]bool   // type T map[..]..
+	mapFields    map[string]bool   // struct fields of a map type
+	otherFields  map[string]bool   // struct fields of any other type
+	mapFuncs     map[string][]bool // function / method name -> which results are maps
+	mapPkgVars   map[string]bool
+)
+
+func isMapType(t ast.Expr) bool {
+	switch x := t.(type) {
+	case *ast.MapType:
+		return true
+	case *ast.Ident:
+		return mapTypeNames[x.Name]
+	case *ast.ParenExpr:
+		return isMapType(x.X)
+	}
+	return false
+}
+
+func collectMapDecls(dir string, ents []os.DirEntry) {
+	mapTypeNames, mapFields, otherFields, mapFuncs, mapPkgVars = map[string]bool{}, map[string]bool{}, map[string]bool{}, map[string][]bool{}, map[string]bool{}
+	var files []*ast.File
+	for _, e := range ents {
+		n := e.Name()
+		if e.IsDir() || !strings.HasSuffix(n, ".go") || strings.HasSuffix(n, "_test.go") {
+			continue
+		}
+		if f, err := parser.ParseFile(token.NewFileSet(), filepath.Join(dir, n), nil, 0); err == nil {
+			files = append(files, f)
+		}
+	}
+	for _, f := range files {
+		for _, d := range f.Decls {
+			if gd, ok := d.(*ast.GenDecl); ok && gd.Tok == token.TYPE {
+				for _, sp := range gd.Specs {
+					if ts, ok := sp.(*ast.TypeSpec); ok {
+						if _, ok := ts.Type.(*ast.MapType); ok {
+							mapTypeNames[ts.Name.Name] = true
+						}
+					}
+				}
+			}
+		}
+	}
+	for _, f := range files {
+		ast.Inspect(f, func(n ast.Node) bool {
+			if st, ok := n.(*ast.StructType); ok && st.Fields != nil {
+				for _, fl := range st.Fields.List {
+					for _, id := range fl.Names {
+						if isMapType(fl.Type) {
+							mapFields[id.Name] = true
+						} else {
+							otherFields[id.Name] = true
+						}
+					}
+				}
+			}
+			return true
+		})
+		for _, d := range f.Decls {
+			switch x := d.(type) {
+			case *ast.FuncDecl:
+				if x.Type.Results == nil {
+					continue
+				}
+				var res []bool
+				any := false
+				for _, fl := range x.Type.Results.List {
+					k := len(fl.Names)
+					if k == 0 {
+						k = 1
+					}
+					for i := 0; i < k; i++ {
+						res = append(res, isMapType(fl.Type))
+						any = any || isMapType(fl.Type)
+					}
+				}
+				if any {
+					if old, dup := mapFuncs[x.Name.Name]; dup && fmt.Sprint(old) != fmt.Sprint(res) {
+						res = make([]bool, len(res)) // two functions of one name disagree: trust neither
+					}
+					mapFuncs[x.Name.Name] = res
+				}
+			case *ast.GenDecl:
+				if x.Tok == token.VAR {
+					for _, sp := range x.Specs {
+						if vs, ok := sp.(*ast.ValueSpec); ok {
+							for i, id := range vs.Names {
+								if (vs.Type != nil && isMapType(vs.Type)) || (i < len(vs.Values) && isMapValue(vs.Values[i])) {
+									mapPkgVars[id.Name] = true
+								}
+							}
+						}
+					}
+				}
+			}
+		}
+	}
+}
+
+// isMapValue: make(map..), make(T), map[..]..{..}, T{..} with T a named map type
+func isMapValue(e ast.Expr) bool {
+	switch x := e.(type) {
+	case *ast.CallExpr:
+		if id, ok := x.Fun.(*ast.Ident); ok && id.Name == "make" && len(x.Args) > 0 {
+			return isMapType(x.Args[0])
+		}
+	case *ast.CompositeLit:
+		return x.Type != nil && isMapType(x.Type)
+	case *ast.ParenExpr:
+		return isMapValue(x.X)
+	}
+	return false
+}
+
+func calleeName(c *ast.CallExpr) string {
+	switch f := c.Fun.(type) {
+	case *ast.Ident:
+		return f.Name
+	case *ast.SelectorExpr:
+		return f.Sel.Name
+	}
+	return ""
+}
+
+// isKnownMap decides (syntactically) whether an expression denotes a map. depth bounds the chase
+// through x := y definitions.
+func isKnownMap(e ast.Expr, depth int) bool {
+	if depth > 4 {
+		return false
+	}
+	switch x := e.(type) {
+	case *ast.ParenExpr:
+		return isKnownMap(x.X, depth)
+	case *ast.CallExpr:
+		if isMapValue(x) {
+			return true
+		}
+		if res := mapFuncs[calleeName(x)]; len(res) == 1 && res[0] {
+			return true
+		}
+	case *ast.CompositeLit:
+		return isMapValue(x)
+	case *ast.SelectorExpr:
+		return mapFields[x.Sel.Name] && !otherFields[x.Sel.Name]
+	case *ast.Ident:
+		if x.Obj == nil {
+			return mapPkgVars[x.Name]
+		}
+		switch d := x.Obj.Decl.(type) {
+		case *ast.Field:
+			return isMapType(d.Type)
+		case *ast.ValueSpec:
+			if d.Type != nil {
+				return isMapType(d.Type)
+			}
+			for i, id := range d.Names {
+				if id.Name == x.Name && i < len(d.Values) {
+					return isKnownMap(d.Values[i], depth+1)
+				}
+			}
+		case *ast.AssignStmt:
+			for i, l := range d.Lhs {
+				if id, ok := l.(*ast.Ident); ok && id.Name == x.Name {
+					if len(d.Rhs) == len(d.Lhs) {
+						return isKnownMap(d.Rhs[i], depth+1)
+					}
+					if len(d.Rhs) == 1 {
+						if call, ok := d.Rhs[0].(*ast.CallExpr); ok {
+							if res := mapFuncs[calleeName(call)]; i < len(res) {
+								return res[i]
+							}
+						}
+					}
+				}
+			}
+		}
+	}
+	return false
+}
+
+// pureExpr: evaluating the expression twice is harmless (identifiers and field selections only)
+func pureExpr(e ast.Expr) bool {
+	switch x := e.(type) {
+	case *ast.Ident:
+		return true
+	case *ast.SelectorExpr:
+		return pureExpr(x.X)
+	case *ast.ParenExpr:
+		return pureExpr(x.X)
+	case *ast.StarExpr:
+		return pureExpr(x.X)
+	}
+	return false
+}
+
+// MapRangeSites counts the rewritten range statements of the whole run (printed by main).
+var MapRangeSites int
+
+func (r *rewriter) rewriteMapRanges() {
+	ast.Inspect(r.file, func(n ast.Node) bool {
+		rs, ok := n.(*ast.RangeStmt)
+		if !ok || !isKnownMap(rs.X, 0) {
+			return true
+		}
+		if !pureExpr(rs.X) {
+			fatal(fmt.Errorf("unsupported construct: range over a map-valued call or literal (%s)", r.fset.Position(rs.Pos())))
+		}
+		r.tmpCounter++
+		kv := ast.NewIdent(fmt.Sprintf("__vk%d", r.tmpCounter))
+		m := rs.X
+		var pre []ast.Stmt
+		// an entry deleted while the loop runs is not visited
+		pre = append(pre, &ast.IfStmt{
+			Init: &ast.AssignStmt{Lhs: []ast.Expr{ast.NewIdent("_"), ast.NewIdent("__vpresent")}, Tok: token.DEFINE, Rhs: []ast.Expr{&ast.IndexExpr{X: m, Index: kv}}},
+			Cond: &ast.UnaryExpr{Op: token.NOT, X: ast.NewIdent("__vpresent")},
+			Body: &ast.BlockStmt{List: []ast.Stmt{&ast.BranchStmt{Tok: token.CONTINUE}}}})
+		var lhs, rhs []ast.Expr
+		blank := func(e ast.Expr) bool {
+			if e == nil {
+				return true
+			}
+			id, ok := e.(*ast.Ident)
+			return ok && id.Name == "_"
+		}
+		if !blank(rs.Key) {
+			lhs, rhs = append(lhs, rs.Key), append(rhs, ast.Expr(kv))
+		}
+		if !blank(rs.Value) {
+			lhs, rhs = append(lhs, rs.Value), append(rhs, ast.Expr(&ast.IndexExpr{X: m, Index: kv}))
+		}
+		if len(lhs) > 0 {
+			pre = append(pre, &ast.AssignStmt{Lhs: lhs, Tok: rs.Tok, Rhs: rhs})
+		}
+		rs.Key, rs.Value, rs.Tok = ast.NewIdent("_"), kv, token.DEFINE
+		rs.X = &ast.CallExpr{Fun: sel("vmap", "Keys"), Args: []ast.Expr{m}}
+		rs.Body.List = append(pre, rs.Body.List...)
+		r.needMap, r.changed = true, true
+		MapRangeSites++
+		return true
+	})
 }
 
 // ---- goroutines and channels -------------------------------------------------
